@@ -23,6 +23,8 @@ DECIDED = ('(a) request text reaches the HTML error page only through an escaper
            'is_json_requested the body is json.dumps(<dict>) with Content-Type application/json set on the same branch.')
 DECIDED_MORE = ('Also: the receiver of .format() does not derive from the request URL; the traceback slot of framework-built errors is text or None.')
 DECIDED = DECIDED + ' ' + DECIDED_MORE
+DECIDED_R6 = ('Round 6: a translate table is evaluated (all five characters); an error built from an exception without a body does not fall back to the exception text.')
+DECIDED = DECIDED + ' ' + DECIDED_R6
 NOT_DECIDED = 'pages rendered with debug on (excluded by the statement); custom error handlers; html.escape itself (assumed).'
 ASSUMPTIONS = ['html.escape and the five replacements of html_escape neutralise markup', 'json.dumps yields valid JSON']
 
